@@ -739,8 +739,6 @@ impl Database {
         #[cfg(kahflane_turdb_verif)]
         crate::verif::point("meta.written", &[]);
         file.sync_all().wrap_err("failed to sync metadata file")?;
-        #[cfg(kahflane_turdb_verif)]
-        crate::verif::file_event("fsync", &meta_path);
 
         Ok(())
     }
